@@ -473,3 +473,16 @@ def standard_check(ctx, *, targets, pinned, binname, gen=None, classify=None, se
                            "theorem_or_correspondence": "correspondence %s/Corr.v:agree" % ctx.pid},
                           found_input=False)
     return finish(ctx)
+
+
+def generic_replay(ctx, path):
+    """Replays a reported violation: prints the stored input and re-runs the property's check with the
+    seed and tier recorded in the replay file (all random choices derive from the seed, so the same
+    cases are regenerated); exit status is that of the check."""
+    import importlib
+    data = json.load(open(path))
+    print(json.dumps(data, indent=1, ensure_ascii=False)[:6000])
+    ctx.seed = int(data.get("seed", ctx.seed))
+    ctx.tier = data.get("tier", ctx.tier)
+    mod = importlib.import_module("checks." + ctx.pid.lower())
+    return mod.run(ctx)
